@@ -1632,7 +1632,11 @@ class Stream(AbstractStream):
         if TP:
             self._thermal_condition = other._thermal_condition
         if flow:
-            self._imol.data = other._imol.data
+            self._imol.data = data = other._imol.data
+            if data.ndim == 2 and self._imol._phases != other._imol._phases:
+                # Shared rows must carry the same phase labels
+                self._imol._set_phases(other._imol._phases)
+                self._imol._set_cache()
         if phase and self._imol.data.ndim == 1:
             self._imol._phase = other._imol._phase
         if hasattr(self, '_streams'): self._streams = {} # Phase views refer to the old data
